@@ -235,7 +235,7 @@ def run_unit(unit, twin=False, rlimit=None, threads=2, auto_fns=None, _depth=0, 
                     res.contractless.setdefault(f['fn'], []).extend(used)
                     continue
         res.failures.append(f)
-    if p.returncode != 0 and not res.failures and not res.undecided:
+    if p.returncode != 0 and not res.failures and not res.undecided and not res.soft_undecided:
         res.undecided.append('verus exit %d with no mapped diagnostic: %s' % (p.returncode, p.stderr[-1500:]))
     return res
 
